@@ -280,6 +280,50 @@ func (in Input) Items() int {
 	}
 }
 
+// Keys returns one string per item built from fields that live in the main
+// record of the signal only (no attributes, events, links or data points):
+// what must survive whenever a main record is decoded at all.
+func (in Input) Keys() []string {
+	var ks []string
+	switch in.Signal {
+	case Traces:
+		rss := in.Traces.ResourceSpans()
+		for i := 0; i < rss.Len(); i++ {
+			for j := 0; j < rss.At(i).ScopeSpans().Len(); j++ {
+				sps := rss.At(i).ScopeSpans().At(j).Spans()
+				for k := 0; k < sps.Len(); k++ {
+					sp := sps.At(k)
+					ks = append(ks, fmt.Sprintf("%q %x %x %d %d %d", sp.Name(), sp.TraceID(), sp.SpanID(), uint64(sp.StartTimestamp()), sp.Kind(), sp.Status().Code()))
+				}
+			}
+		}
+	case Logs:
+		rls := in.Logs.ResourceLogs()
+		for i := 0; i < rls.Len(); i++ {
+			for j := 0; j < rls.At(i).ScopeLogs().Len(); j++ {
+				lrs := rls.At(i).ScopeLogs().At(j).LogRecords()
+				for k := 0; k < lrs.Len(); k++ {
+					l := lrs.At(k)
+					ks = append(ks, fmt.Sprintf("%d %d %q %x %x", uint64(l.Timestamp()), l.SeverityNumber(), l.SeverityText(), l.TraceID(), l.SpanID()))
+				}
+			}
+		}
+	default:
+		rms := in.Metrics.ResourceMetrics()
+		for i := 0; i < rms.Len(); i++ {
+			for j := 0; j < rms.At(i).ScopeMetrics().Len(); j++ {
+				ms := rms.At(i).ScopeMetrics().At(j).Metrics()
+				for k := 0; k < ms.Len(); k++ {
+					m := ms.At(k)
+					ks = append(ks, fmt.Sprintf("%q %q %q %d", m.Name(), m.Unit(), m.Description(), m.Type()))
+				}
+			}
+		}
+	}
+	sort.Strings(ks)
+	return ks
+}
+
 // Panic describes a recovered panic.
 type Panic struct {
 	Value string
@@ -335,6 +379,9 @@ func Encode(p *arrow_record.Producer, in Input) (bar *colarspb.BatchArrowRecords
 // Decoded is the result of one consumer call.
 type Decoded struct {
 	Canon []string
+	// Keys: one string per decoded item made of fields of the MAIN record only
+	// (see Input.Keys)
+	Keys  []string
 	Items int
 	Err   error
 	Panic *Panic
@@ -350,6 +397,7 @@ func Decode(c *arrow_record.Consumer, signal string, bar *colarspb.BatchArrowRec
 			for _, o := range outs {
 				d.Canon = append(d.Canon, canon.Spans(o)...)
 				d.Items += o.SpanCount()
+				d.Keys = append(d.Keys, Input{Signal: Traces, Traces: o}.Keys()...)
 			}
 		case Logs:
 			outs, err := c.LogsFrom(bar)
@@ -357,6 +405,7 @@ func Decode(c *arrow_record.Consumer, signal string, bar *colarspb.BatchArrowRec
 			for _, o := range outs {
 				d.Canon = append(d.Canon, canon.Logs(o)...)
 				d.Items += o.LogRecordCount()
+				d.Keys = append(d.Keys, Input{Signal: Logs, Logs: o}.Keys()...)
 			}
 		default:
 			outs, err := c.MetricsFrom(bar)
@@ -364,10 +413,12 @@ func Decode(c *arrow_record.Consumer, signal string, bar *colarspb.BatchArrowRec
 			for _, o := range outs {
 				d.Canon = append(d.Canon, canon.Metrics(o)...)
 				d.Items += o.MetricCount()
+				d.Keys = append(d.Keys, Input{Signal: Metrics, Metrics: o}.Keys()...)
 			}
 		}
 	})
 	sort.Strings(d.Canon)
+	sort.Strings(d.Keys)
 	return
 }
 
